@@ -432,6 +432,16 @@ func runC13Parent(a *args, st *stats, cases []c13Case) error {
 		}
 		items = append(items, fmt.Sprintf("{| cc_server := %s; cc_ok := %s |}", b(c.Regime == "server"), b(len(c.Problems) == 0)))
 	}
+	if a.replay == "" {
+		rounds := 20000
+		if a.tier == "thorough" {
+			rounds = 150000
+		}
+		if why := c13FirstInsertRace(rounds); why != "" {
+			st.ImplFailures = append(st.ImplFailures, implFailure{Case: -1, What: why, Key: "first-insert-race", Input: map[string]interface{}{"writers": 4, "rounds": rounds}})
+		}
+		st.count("first-insert-race-rounds")
+	}
 	if len(cases) > 0 {
 		st.Samples = append(st.Samples, cases[0])
 	}
@@ -444,4 +454,48 @@ func runC13Parent(a *args, st *stats, cases []c13Case) error {
 		return err
 	}
 	return writeJSON(a.out+"/stats.json", st)
+}
+
+// c13FirstInsertRace: four writers insert the same id (different vectors) into an empty index at the same moment -
+// the one window in which several writers see no entry point.  Afterwards the index is what a sequential history
+// leaves: one insert succeeded, one item, found once by a search with the score of the stored vector; after its
+// removal nothing is found.
+func c13FirstInsertRace(rounds int) string {
+	sp := space.NewEuclidean()
+	for round := 0; round < rounds; round++ {
+		idx := index.NewHnsw(2, sp, index.HnswM(4), index.HnswEf(10), index.HnswEfConstruction(10))
+		id := uuid.NewV4()
+		var start, done sync.WaitGroup
+		start.Add(1)
+		var oks int32
+		for w := 0; w < 4; w++ {
+			done.Add(1)
+			go func(w int) {
+				defer done.Done()
+				start.Wait()
+				if idx.Insert(id, []float32{float32(w + 1), 0}, nil, w%2) == nil {
+					atomic.AddInt32(&oks, 1)
+				}
+			}(w)
+		}
+		start.Done()
+		done.Wait()
+		v, gerr := idx.Get(id)
+		res, _ := idx.Search(context.Background(), []float32{0, 0}, 5)
+		switch {
+		case oks != 1:
+			return fmt.Sprintf("round %d: %d of 4 concurrent inserts of one id into an empty index succeeded", round, oks)
+		case idx.Len() != 1 || gerr != nil:
+			return fmt.Sprintf("round %d: after 4 concurrent inserts of one id into an empty index Len() = %d, Get: %v", round, idx.Len(), gerr)
+		case len(res) != 1:
+			return fmt.Sprintf("round %d: the index holds 1 item (Len() = 1), a search returned %d items", round, len(res))
+		case res[0].Score != sp.Distance([]float32{0, 0}, v):
+			return fmt.Sprintf("round %d: the search returned the item with score %v, its stored vector %v is at %v", round, res[0].Score, v, sp.Distance([]float32{0, 0}, v))
+		}
+		idx.Remove(id)
+		if res, _ := idx.Search(context.Background(), []float32{0, 0}, 5); len(res) != 0 || idx.Len() != 0 {
+			return fmt.Sprintf("round %d: after the removal of the only item Len() = %d and a search returned %d items", round, idx.Len(), len(res))
+		}
+	}
+	return ""
 }
